@@ -30,7 +30,8 @@ Theorem C32_source_facts :
   gen_readloop_teardown_reports = 1%N /\ gen_keepalive_teardown_reports = 2%N /\
   gen_agent_cleanup_by_peer_id = true /\ gen_agent_callback_wired = true /\
   gen_disconnectall_snapshot_and_reset_atomic = true /\ gen_disconnect_delete_under_lock = true /\
-  gen_loops_close_their_own_connection = true /\ gen_agent_cleanup_synchronous = true.
+  gen_loops_close_their_own_connection = true /\ gen_agent_cleanup_synchronous = true /\
+  gen_agent_cleanup_direct_calls = 0%N.
 Proof. repeat split; reflexivity. Qed.
 Print Assumptions C32_source_facts.
 
